@@ -57,15 +57,58 @@ Qed.
 Lemma parse_ser_wf m rest : wf_mb m -> parse_merkle_block (ser_merkle_block m ++ rest) = Some (m, rest).
 Proof. intros [W1 [W2 [W3 [W4 W5]]]]. apply parse_ser_merkle_block; assumption. Qed.
 
+Lemma concat_len32 (hs : list bytes) : Forall (fun h => length h = 32%nat) hs -> lenN (concat hs) = 32 * lenL hs.
+Proof.
+  induction 1 as [|h hs Hh _ IH]; [reflexivity|]. cbn [concat]. rewrite lenN_app, IH.
+  unfold lenN, lenL. cbn [length]. lia.
+Qed.
+
+
+(* ---------- checkMerkleBlockHashCount (fix c4c5793) ---------- *)
+Lemma skipn84 hd x (X : bytes) : length hd = 80%nat -> skipn 84 (hd ++ le_enc 4 x ++ X) = X.
+Proof.
+  intro Hh. rewrite app_assoc, skipn_app, app_length, le_enc_length, Hh.
+  rewrite skipn_all2 by (rewrite app_length, le_enc_length; lia). reflexivity.
+Qed.
+
+(* on an input with a well-formed count the check compares it with the bytes behind it *)
+Lemma check_value hd cnt nh r : length hd = 80%nat -> nh < two64 ->
+  hash_count_exceeds (hd ++ le_enc 4 cnt ++ varint nh ++ r) = (lenN r / 32 <? nh).
+Proof.
+  intros Hh Hn. unfold hash_count_exceeds.
+  assert (Hv : (1 <= length (varint nh))%nat)
+    by (destruct (varint nh) eqn:Ev; [exfalso; exact (varint_nonempty nh Ev)|cbn; lia]).
+  destruct (Nat.leb_spec (length (hd ++ le_enc 4 cnt ++ varint nh ++ r)) 84) as [Hle|_].
+  { rewrite !app_length, le_enc_length in Hle. lia. }
+  rewrite skipn84 by exact Hh. rewrite p_varint_app by exact Hn. reflexivity.
+Qed.
+
+Lemma check_passes_on_accepted bs m r : parse_merkle_block bs = Some (m, r) -> hash_count_exceeds bs = false.
+Proof.
+  intro P. apply parse_merkle_block_inv in P as [-> [W1 [W2 [W3 [W4 W5]]]]].
+  unfold ser_merkle_block. rewrite <- !app_assoc. unfold wire_max_hashes in W4.
+  rewrite check_value by (try exact W1; unfold two64; lia).
+  apply N.ltb_ge. rewrite !lenN_app, (concat_len32 _ W3). apply N.div_le_lower_bound; lia.
+Qed.
+
+(* the check refuses nothing the decoder would have accepted: acceptance is that of the blob parser *)
+Theorem decode_eq_parse bs :
+  decode_merkle_block bs = match parse_merkle_block bs with Some (m, _) => Some m | None => None end.
+Proof.
+  unfold decode_merkle_block. destruct (parse_merkle_block bs) as [[m r]|] eqn:P.
+  - rewrite (check_passes_on_accepted _ _ _ P). reflexivity.
+  - destruct (hash_count_exceeds bs); reflexivity.
+Qed.
+
 (* the whole-input decoder ignores what follows the encoding ... *)
 Theorem decode_ignores_trailing m rest : wf_mb m -> decode_merkle_block (ser_merkle_block m ++ rest) = Some m.
-Proof. intro W. unfold decode_merkle_block. rewrite parse_ser_wf by exact W. reflexivity. Qed.
+Proof. intro W. rewrite decode_eq_parse. rewrite parse_ser_wf by exact W. reflexivity. Qed.
 
 (* ... accepts only inputs that begin with a complete encoding ... *)
 Theorem decode_accepts_complete bs m :
   decode_merkle_block bs = Some m -> exists rest, bs = ser_merkle_block m ++ rest /\ wf_mb m.
 Proof.
-  unfold decode_merkle_block. destruct (parse_merkle_block bs) as [[m' r]|] eqn:P; [|discriminate].
+  rewrite decode_eq_parse. destruct (parse_merkle_block bs) as [[m' r]|] eqn:P; [|discriminate].
   intro E. injection E as <-. exists r. apply parse_merkle_block_inv. exact P.
 Qed.
 
@@ -73,7 +116,7 @@ Qed.
 Theorem merkleblock_strict_prefix_rejected m pre suf :
   wf_mb m -> ser_merkle_block m = pre ++ suf -> suf <> [] -> decode_merkle_block pre = None.
 Proof.
-  intros W E Hs. unfold decode_merkle_block.
+  intros W E Hs. rewrite decode_eq_parse.
   destruct (parse_merkle_block pre) as [[m' r']|] eqn:P; [|reflexivity]. exfalso.
   pose proof (stable_parse_merkle_block _ _ _ suf P) as S. rewrite <- E in S.
   pose proof (parse_ser_wf m [] W) as Q. rewrite app_nil_r in Q. rewrite Q in S.
@@ -81,12 +124,6 @@ Proof.
 Qed.
 
 (* an accepted input is at least as long as what was decoded from it *)
-Lemma concat_len32 (hs : list bytes) : Forall (fun h => length h = 32%nat) hs -> lenN (concat hs) = 32 * lenL hs.
-Proof.
-  induction 1 as [|h hs Hh _ IH]; [reflexivity|]. cbn [concat]. rewrite lenN_app, IH.
-  unfold lenN, lenL. cbn [length]. lia.
-Qed.
-
 Theorem merkleblock_accepted_size bs m r :
   parse_merkle_block bs = Some (m, r) ->
   84 + varint_size (lenL (mb_hashes m)) + 32 * lenL (mb_hashes m) +
@@ -98,12 +135,21 @@ Proof.
 Qed.
 
 (* ---------- memory requested while decoding ---------- *)
-Theorem alloc_btcd_bounded bs : alloc_btcd bs <= alloc_const_bound.
+(* once the count check has let an input through, what btcd reserves for hashes is backed by input;
+   the flag bytes (cap 50000) are the only reservation that is not *)
+Lemma alloc_btcd_backed bs : hash_count_exceeds bs = false -> alloc_btcd bs <= 2 * lenN bs + wire_max_flags.
 Proof.
-  unfold alloc_btcd, alloc_const_bound, wire_max_hashes, wire_max_flags.
-  destruct ((hd <- take 80;; cnt <- p_le 4;; nh <- p_varint;; ret nh) bs) as [[nh r1]|]; [|lia].
-  destruct (N.ltb_spec 400001 nh); [lia|].
-  destruct ((hs <- p_list (take 32) nh;; nf <- p_varint;; ret nf) r1) as [[nf r2]|]; [|lia].
+  intro Hc. unfold alloc_btcd, bind.
+  destruct (take 80 bs) as [[hd r1]|] eqn:E1; [|lia].
+  destruct (p_le 4 r1) as [[cnt r2]|] eqn:E2; [|lia].
+  destruct (p_varint r2) as [[nh r3]|] eqn:E3; [|lia]. unfold ret.
+  apply take_inv in E1 as [-> L1]. apply p_le_inv in E2 as [-> B2]. apply p_varint_inv in E3 as [-> B3].
+  rewrite check_value in Hc by assumption. apply N.ltb_ge in Hc.
+  rewrite !lenN_app. unfold wire_max_flags.
+  destruct (wire_max_hashes <? nh); [lia|].
+  assert (Hb : 32 * nh <= lenN r3) by lia.
+  destruct (p_list (take 32) nh r3) as [[hs r4]|]; [|lia].
+  destruct (p_varint r4) as [[nf r5]|]; [|lia].
   destruct (N.ltb_spec 50000 nf); lia.
 Qed.
 
@@ -133,26 +179,36 @@ Proof.
   intro P. pose proof (merkleblock_accepted_size _ _ _ P) as Sz.
   pose proof (parse_merkle_block_inv _ _ _ P) as [E W].
   assert (A : alloc_merkle_block bs = 96 * lenL (mb_hashes m) + 9 * lenN (mb_flags m)).
-  { unfold alloc_merkle_block, decode_merkle_block. rewrite P. rewrite E at 1.
+  { unfold alloc_merkle_block. rewrite (check_passes_on_accepted _ _ _ P), decode_eq_parse, P. rewrite E at 1.
     rewrite alloc_btcd_ser by exact W. unfold alloc_repo. lia. }
   split; [exact A|]. rewrite A. lia.
 Qed.
 
-(* for every input, accepted or not, it is bounded by a constant plus nine times the input *)
+(* for every input, accepted or not: at most the flag-byte cap (50000, within the allowance of the
+   allocation oracle) plus nine times the input *)
 Theorem alloc_bounded bs : alloc_merkle_block bs <= alloc_const_bound + 9 * lenN bs.
 Proof.
+  unfold alloc_const_bound.
   destruct (parse_merkle_block bs) as [[m r]|] eqn:P.
   - pose proof (alloc_accepted_proportional _ _ _ P) as [_ B]. lia.
-  - unfold alloc_merkle_block, decode_merkle_block. rewrite P. pose proof (alloc_btcd_bounded bs). lia.
+  - unfold alloc_merkle_block. destruct (hash_count_exceeds bs) eqn:Hc; [lia|].
+    rewrite decode_eq_parse, P. pose proof (alloc_btcd_backed bs Hc). lia.
 Qed.
 
-(* FULL STATEMENT (does not hold): alloc_merkle_block bs <= k * lenN bs for a small k.
-   btcd compares the hash count with the constant maxTxPerBlock, not with the bytes that are
-   there: 89 bytes make it reserve 16 MB before the first hash is read (and then fail) *)
+(* a rejected input requests at most the flag-byte cap plus twice its length *)
+Theorem alloc_rejected_bounded bs : decode_merkle_block bs = None -> alloc_merkle_block bs <= wire_max_flags + 2 * lenN bs.
+Proof.
+  intro D. unfold alloc_merkle_block. destruct (hash_count_exceeds bs) eqn:Hc; [lia|].
+  rewrite D. pose proof (alloc_btcd_backed bs Hc). lia.
+Qed.
+
+(* the shape before fix c4c5793 (no count check in front of btcd): 89 bytes made btcd reserve 16 MB
+   before the first hash was read; the same input is now refused without any reservation *)
 Definition greedy_blob : bytes := repeat x00 84 ++ [xfe; x81; x1a; x06; x00].
-Theorem alloc_proportional_refuted :
-  lenN greedy_blob = 89 /\ decode_merkle_block greedy_blob = None /\ alloc_merkle_block greedy_blob = 16000040.
-Proof. split; [reflexivity|]. split; vm_compute; reflexivity. Qed.
+Example alloc_prefix_shape :
+  lenN greedy_blob = 89 /\ alloc_merkle_block_prefix greedy_blob = 16000040 /\
+  decode_merkle_block greedy_blob = None /\ alloc_merkle_block greedy_blob = 0.
+Proof. split; [reflexivity|]. split; [vm_compute; reflexivity|]. split; vm_compute; reflexivity. Qed.
 
 (* ---------- ExtractMatches never indexes out of range ---------- *)
 Lemma skipn_nth {X} : forall (l : list X) i, (i < length l)%nat ->
@@ -267,7 +323,7 @@ Theorem decode_extract_is_run_proof bs :
   decode_extract_ix bs =
   match run_proof bs with PParseErr => IxErr | PExtractErr _ => IxErr | POk _ root ms => IxOk (root, ms) end.
 Proof.
-  unfold decode_extract_ix, decode_merkle_block, run_proof.
+  unfold decode_extract_ix, run_proof. rewrite decode_eq_parse.
   destruct (parse_merkle_block bs) as [[m r]|]; [|reflexivity].
   unfold extract_mb_ix, extract_mb. rewrite extract_ix_refines.
   destruct (extract bytes node_hash bytes_eqb (mb_count m) (mb_hashes m) (bits_of_bytes (mb_flags m))) as [[root ms]|]; reflexivity.
@@ -279,7 +335,17 @@ Theorem weaker_guard_panics :
   extract_gen bytes node_hash bytes_eqb Nat.ltb 1 [] (bits_of_bytes [x00]) = IxPanic.
 Proof. vm_compute. reflexivity. Qed.
 
-(* the counts are compared with their caps before anything is reserved or read *)
+(* the hash count is compared with the bytes behind it, and both counts with their caps, before
+   anything is reserved or read *)
+Theorem merkle_hash_count_vs_input hd cnt nh r :
+  length hd = 80%nat -> nh < two64 -> lenN r / 32 < nh ->
+  decode_merkle_block (hd ++ le_enc 4 cnt ++ varint nh ++ r) = None /\
+  alloc_merkle_block (hd ++ le_enc 4 cnt ++ varint nh ++ r) = 0.
+Proof.
+  intros Hh Hn Hx. unfold decode_merkle_block, alloc_merkle_block. rewrite check_value by assumption.
+  destruct (N.ltb_spec (lenN r / 32) nh); [split; reflexivity|lia].
+Qed.
+
 Theorem merkle_hash_count_checked hd cnt nh r :
   length hd = 80%nat -> cnt < two32 -> nh < two64 -> wire_max_hashes < nh ->
   parse_merkle_block (hd ++ le_enc 4 cnt ++ varint nh ++ r) = None /\
@@ -289,7 +355,9 @@ Proof.
   assert (P : parse_merkle_block (hd ++ le_enc 4 cnt ++ varint nh ++ r) = None).
   { unfold parse_merkle_block, bind. rewrite (take_app_n 80) by exact Hh. rewrite p_le_app by exact Hc.
     rewrite p_varint_app by exact Hn. destruct (N.ltb_spec wire_max_hashes nh); [reflexivity|lia]. }
-  split; [exact P|]. unfold alloc_merkle_block, decode_merkle_block. rewrite P.
+  split; [exact P|]. unfold alloc_merkle_block.
+  destruct (hash_count_exceeds (hd ++ le_enc 4 cnt ++ varint nh ++ r)); [reflexivity|].
+  rewrite decode_eq_parse, P.
   unfold alloc_btcd, bind. rewrite (take_app_n 80) by exact Hh. rewrite p_le_app by exact Hc.
   rewrite p_varint_app by exact Hn. unfold ret. destruct (N.ltb_spec wire_max_hashes nh); [reflexivity|lia].
 Qed.
@@ -312,7 +380,11 @@ Proof.
     rewrite p_varint_app by (unfold two64; lia). unfold wire_max_hashes.
     destruct (N.ltb_spec 400001 (lenL hs)); [lia|]. rewrite L. rewrite p_varint_app by exact Hn.
     destruct (N.ltb_spec wire_max_flags nf); [reflexivity|lia]. }
-  split; [exact P|]. unfold alloc_merkle_block, decode_merkle_block. rewrite P.
+  split; [exact P|]. unfold alloc_merkle_block.
+  rewrite check_value by (try exact W1; unfold two64; lia).
+  assert (Hk : (lenN (concat hs ++ varint nf ++ r) / 32 <? lenL hs) = false).
+  { apply N.ltb_ge. rewrite lenN_app, (concat_len32 _ W3). apply N.div_le_lower_bound; lia. }
+  rewrite Hk, decode_eq_parse, P.
   unfold alloc_btcd, bind. rewrite (take_app_n 80) by exact W1. rewrite p_le_app by exact W2.
   rewrite p_varint_app by (unfold two64; lia). unfold ret, wire_max_hashes.
   destruct (N.ltb_spec 400001 (lenL hs)); [lia|]. rewrite L. rewrite p_varint_app by exact Hn.
